@@ -136,6 +136,67 @@ func genLayeredOBUs(c *RNG) []av1OBU {
 	return os
 }
 
+// emitAv1Lossless payloads the OBUs, feeds the packets to AV1Depacketizer and to AV1Packet +
+// frame.AV1, compares both with the OBUs, and emits the payloader case and the two receiver cases.
+func emitAv1Lossless(c *RNG, mtu int, os []av1OBU, emit func(op int, toks ...Tok)) {
+	in := encodeOBUs(os)
+	pk := (&codecs.AV1Payloader{}).Payload(uint16(mtu), append([]byte{}, in...))
+	if mtu >= 2 {
+		fail := ""
+		d := &codecs.AV1Depacketizer{}
+		var got []byte
+		for _, p := range pk {
+			out, err := d.Unmarshal(p)
+			if err != nil {
+				fail = "AV1Depacketizer rejected payloader output: " + err.Error()
+				break
+			}
+			got = append(got, out...)
+		}
+		if fail == "" && !bytes.Equal(got, expectedOBUs(os)) {
+			fail = "AV1Depacketizer output differs from the OBUs that were payloaded"
+		}
+		if fail == "" { // deprecated path
+			f := &frame.AV1{}
+			var got2 []byte
+			for _, p := range pk {
+				ap := &codecs.AV1Packet{}
+				if _, err := ap.Unmarshal(p); err != nil {
+					fail = "AV1Packet rejected payloader output: " + err.Error()
+					break
+				}
+				fr, _ := f.ReadFrames(ap)
+				for _, x := range fr {
+					h, err := obu.ParseOBUHeader(x)
+					if err != nil {
+						fail = "frame assembler returned an unparsable OBU"
+						break
+					}
+					h.HasSizeField = true
+					got2 = append(got2, h.Marshal()...)
+					got2 = append(got2, leb(uint64(len(x)-h.Size()))...)
+					got2 = append(got2, x[h.Size():]...)
+				}
+			}
+			if fail == "" && !bytes.Equal(got2, expectedOBUs(os)) {
+				fail = "AV1Packet + frame.AV1 output differs from the OBUs that were payloaded"
+			}
+		}
+		if fail != "" {
+			pendingFailures = append(pendingFailures, pendingFailure{CaseLine(1301, TI(int64(mtu)), TBytes(in)), fail, ""})
+		}
+	}
+	emit(1301, TI(int64(mtu)), TBytes(in))
+	ps := TList{}
+	for _, p := range pk {
+		ps = append(ps, TBytes(p))
+	}
+	if len(ps) > 0 {
+		emit(1302, ps)
+		emit(1303, ps)
+	}
+}
+
 func genOBUs(c *RNG, mtu int) []av1OBU {
 	n := 1 + c.Intn(6)
 	sameLayer := c.Bool()
@@ -415,6 +476,16 @@ func init() {
 			} else {
 				emitAv1LebEdges(r.Fork(424242), []int{128, 16384}, emit)
 			}
+			// packets with several hundred elements (W = 0, every element length-prefixed): element
+			// counters must not be 8 bits wide
+			for _, k := range []int{255, 256, 257, 300, 600} {
+				c := r.Fork(uint64(7000 + k))
+				var os []av1OBU
+				for j := 0; j < k; j++ {
+					os = append(os, av1OBU{typ: c.Pick(3, 6), hasSize: true, payload: []byte{byte(j)}})
+				}
+				emitAv1Lossless(c, 1+3*k+c.Pick(0, 1, 200), os, emit)
+			}
 			for i := 0; i < n; i++ {
 				c := r.Fork(uint64(i))
 				switch c.Intn(6) {
@@ -425,62 +496,7 @@ func init() {
 						mtu = c.Pick(40, 100, 1200)
 						os = genLayeredOBUs(c)
 					}
-					in := encodeOBUs(os)
-					pk := (&codecs.AV1Payloader{}).Payload(uint16(mtu), append([]byte{}, in...))
-					if mtu >= 2 {
-						fail := ""
-						d := &codecs.AV1Depacketizer{}
-						var got []byte
-						for _, p := range pk {
-							out, err := d.Unmarshal(p)
-							if err != nil {
-								fail = "AV1Depacketizer rejected payloader output: " + err.Error()
-								break
-							}
-							got = append(got, out...)
-						}
-						if fail == "" && !bytes.Equal(got, expectedOBUs(os)) {
-							fail = "AV1Depacketizer output differs from the OBUs that were payloaded"
-						}
-						if fail == "" { // deprecated path
-							f := &frame.AV1{}
-							var got2 []byte
-							for _, p := range pk {
-								ap := &codecs.AV1Packet{}
-								if _, err := ap.Unmarshal(p); err != nil {
-									fail = "AV1Packet rejected payloader output: " + err.Error()
-									break
-								}
-								fr, _ := f.ReadFrames(ap)
-								for _, x := range fr {
-									h, err := obu.ParseOBUHeader(x)
-									if err != nil {
-										fail = "frame assembler returned an unparsable OBU"
-										break
-									}
-									h.HasSizeField = true
-									got2 = append(got2, h.Marshal()...)
-									got2 = append(got2, leb(uint64(len(x)-h.Size()))...)
-									got2 = append(got2, x[h.Size():]...)
-								}
-							}
-							if fail == "" && !bytes.Equal(got2, expectedOBUs(os)) {
-								fail = "AV1Packet + frame.AV1 output differs from the OBUs that were payloaded"
-							}
-						}
-						if fail != "" {
-							pendingFailures = append(pendingFailures, pendingFailure{CaseLine(1301, TI(int64(mtu)), TBytes(in)), fail, ""})
-						}
-					}
-					emit(1301, TI(int64(mtu)), TBytes(in))
-					ps := TList{}
-					for _, p := range pk {
-						ps = append(ps, TBytes(p))
-					}
-					if len(ps) > 0 {
-						emit(1302, ps)
-						emit(1303, ps)
-					}
+					emitAv1Lossless(c, mtu, os, emit)
 				case 3:
 					emit(1301, TI(int64(c.Intn(40))), TB(c.Bytes(c.Intn(30))))
 				case 4:
